@@ -153,6 +153,9 @@ def ser_record(sf, rid, text_limit=2500):
             rec["serst"] = "str-and-serialize-differ"
     except Exception as e:  # noqa
         rec["serst"] = type(e).__name__
+        if len(json.dumps(rec["obj"])) > 6 * text_limit:
+            rec["level"] = "params"          # big object: keep TLC's work bounded (values elided)
+            rec["obj"] = elide_obj(sf, fmt)
         return rec, None
     long_value = any(isinstance(v, str) and len(v) > ELIDE_AT and ":" in v and k in MULTI for k, v in sf.items())
     if len(text) > text_limit and not long_value:
